@@ -78,7 +78,7 @@ func relevant(ct *Contract, prop string) bool {
 	if prop == "" {
 		return true
 	}
-	if ct.Trusted {
+	if ct.Trusted || ct.Rec {
 		return false
 	}
 	if hasTag(ct.SafetyTags, prop) {
@@ -164,7 +164,7 @@ func RunCheck(opts CheckOpts) int {
 	var schedule func(ct *Contract)
 	schedule = func(ct *Contract) {
 		mu.Lock()
-		if scheduled[ct.Key] || ct.Trusted {
+		if scheduled[ct.Key] || ct.Trusted || ct.Rec {
 			mu.Unlock()
 			return
 		}
@@ -363,10 +363,13 @@ func RunCheck(opts CheckOpts) int {
 		assumedExt = append(assumedExt, k)
 	}
 	sort.Strings(assumedExt)
-	var trusted []string
+	var trusted, mathint []string
 	for _, ct := range eng.order {
 		if ct.Trusted {
 			trusted = append(trusted, ct.Key)
+		}
+		if ct.MathInt && results[ct.Key] != nil {
+			mathint = append(mathint, ct.Key)
 		}
 	}
 	if len(samples) == 0 {
@@ -393,6 +396,7 @@ func RunCheck(opts CheckOpts) int {
 			"failed_obligations":       failedNames,
 			"uncovered":                uncovered,
 			"trusted_contracts":        trusted,
+			"mathematical_int_assumed": mathint,
 			"assumed_externals":        assumedExt,
 			"bounded":                  []string{},
 		},
